@@ -127,12 +127,16 @@ def run_shard(spec, acc):
             hh *= 2
         while hh > 5e-5:
             hh /= 2
-        kk = rng.choice([0, 1, 2, 5, int((s1 - s0) / hh) - 1])
-        xa_ = (s0 + kk * hh, s0 + (kk + 1) * hh)
+        nmax = int(round((s1 - s0) / hh))
+        kk = rng.choice([0, 1, 2, 5, nmax - 1])
         off = rng.choice([0, 1, 1, 2])
-        xb_ = (xa_[0] + off * hh, xa_[1] + off * hh)
-        if xb_[1] > s1 * (1 + 1e-15):
-            xb_ = xa_
+        if kk + off + 1 > nmax:
+            off = 0
+
+        def pt_(k_):     # one expression for every grid point, so that touching intervals share their end point bit for bit
+            return s1 if k_ == nmax else s0 + k_ * hh
+        xa_ = (pt_(kk), pt_(kk + 1))
+        xb_ = (pt_(kk + off), pt_(kk + off + 1))
         ht = hh * hh / 2.0**rng.randint(0, 3)
         lag = rng.choice([0, 0, 1])
         elems = elems + [far_dummy((lag * ht, (lag + 1) * ht), xa_), far_dummy((0.0, ht), xb_)]
